@@ -128,12 +128,18 @@ def rule_Y7(ctx, rule: str = "Y7") -> None:
         raise AnalysisError("expected at least two `annotation` producers (field and map entry)")
     for q, f in sorted(ann.items()):
         src = ast.unparse(f)
+        # methods of the model that the producer calls (self.parent.qualify(..), self.parent.shadows(..)) are read with it
+        called_ = {c.func.attr for c in ast.walk(f) if isinstance(c, ast.Call) and isinstance(c.func, ast.Attribute)} | {
+            a.attr for a in ast.walk(f) if isinstance(a, ast.Attribute)}
+        helpers_ = [ff for qq, ff in fns.items() if qq.rsplit(".", 1)[-1] in called_ and qq.rsplit(".", 1)[-1] not in ("annotation",) and not any(
+            ast.unparse(d) == "property" for d in ff.decorator_list)]
+        src_h = src + "".join(ast.unparse(ff) for ff in helpers_)
         embeds = any(isinstance(n, ast.Attribute) and n.attr.startswith("py_") and n.attr.endswith("type") for n in ast.walk(f))
         if not embeds:
             ctx.proved(rule, f"{q}:shadowing", mod.loc(f), "embeds no Python type name")
             continue
-        consults = "builtins_types" in src or "use_builtins" in src
-        prefixes = any(isinstance(n, ast.Constant) and isinstance(n.value, str) and "builtins." in n.value for n in ast.walk(f))
+        consults = "builtins_types" in src_h or "use_builtins" in src
+        prefixes = any(isinstance(n, ast.Constant) and isinstance(n.value, str) and "builtins." in n.value for ff in [f] + helpers_ for n in ast.walk(ff))
         if consults and prefixes:
             ctx.proved(rule, f"{q}:shadowing", mod.loc(f))
         else:
